@@ -480,12 +480,10 @@ def stage_t(chk, bindir, tier, stats):
         core.log(r.out[-3000:])
         raise core.ToolError(f"FlushReadTrace failed: {r.error} rc={r.rc}")
     verdict = {}
-    for line in r.out.splitlines():
-        line = line.strip()
-        for tag in ("MISSED", "FOREIGN", "OVERCOUNT", "UNDERCOUNT", "TWICE"):
-            p = f'<<"{tag}", "'
-            if line.startswith(p) and line.endswith('">>'):
-                verdict[tag] = json.loads(line[len(p):-3].replace('\\"', '"'))
+    for tag in ("MISSED", "FOREIGN", "OVERCOUNT", "UNDERCOUNT", "TWICE"):
+        v = r.printed_last(tag)
+        if v is not None:
+            verdict[tag] = v
     if set(verdict) != {"MISSED", "FOREIGN", "OVERCOUNT", "UNDERCOUNT", "TWICE"}:
         core.log(r.out[-2000:])
         raise core.ToolError("FlushReadTrace produced no verdict")
